@@ -283,6 +283,19 @@ pub fn no_panic<T>(f: impl FnOnce() -> T) -> Result<T, String> {
     }
 }
 
+/// A case as an evidence sample; very large cases (size-boundary inputs of
+/// hundreds of kilobytes) are abbreviated so that evidence files stay small.
+fn sample_value<C: Serialize>(case: &C) -> Value {
+    let v = serde_json::to_value(case).unwrap_or(Value::Null);
+    let text = v.to_string();
+    if text.len() <= 6000 {
+        v
+    } else {
+        let head: String = text.chars().take(400).collect();
+        json!({ "abbreviated_case": format!("{} characters of JSON", text.len()), "starts_with": head })
+    }
+}
+
 fn guarded(f: impl FnOnce() -> CheckResult) -> CheckResult {
     match no_panic(f) {
         Ok(r) => r,
@@ -516,7 +529,7 @@ impl Engine {
                         if !failed_once.get() {
                             self.absorb(
                                 &obs,
-                                || serde_json::to_value(&case).unwrap_or(Value::Null),
+                                || sample_value(&case),
                                 &mut local.borrow_mut(),
                             );
                         }
@@ -611,7 +624,7 @@ impl Engine {
                                 if local.samples.len() < 2
                                     || (local.nontrivial.is_power_of_two() && local.samples.len() < 5)
                                 {
-                                    local.samples.push(serde_json::to_value(&case).unwrap_or(Value::Null));
+                                    local.samples.push(sample_value(&case));
                                 }
                             }
                             if let Err(f) = r {
